@@ -67,12 +67,23 @@ def reset_process_state(desc: dict) -> None:
     S.seed_entropy(entropy)
     random.seed(entropy ^ 0x5EED)
     import hypothesis.core as hc
+    import hypothesis.internal.conjecture.engine as hce
+    from hypothesis.utils.threading import ThreadLocal
 
-    hc._hypothesis_global_random = random.Random(entropy ^ 0xABCDEF)
-    try:
-        import hypothesis.internal.entropy as he  # noqa: F401
-    except Exception:  # pragma: no cover
-        pass
+    # Hypothesis seeds unseeded tests from a *thread-local* Random() created lazily from OS entropy.
+    # The simulator owns it: one seeded stream per sim thread id (name#k), derived from the run's entropy id.
+    def _per_thread_random() -> random.Random:
+        s = S.ACTIVE
+        sid = "-"
+        if s is not None:
+            me = s.me()
+            if me is not None:
+                sid = me.sid
+        h = hashlib.sha256(f"{entropy}:{sid}".encode()).digest()
+        return random.Random(int.from_bytes(h[:8], "big"))
+
+    hc.threadlocal = ThreadLocal(_hypothesis_global_random=_per_thread_random)
+    hce._random.seed(entropy ^ 0xABCDEF)
     import schemathesis.generation as sg
 
     sg.RANDOM.seed(entropy ^ 0x1234)
@@ -253,7 +264,13 @@ def run_engine(ctx: RunContext) -> None:
         handlers = ctx.extra.get("handlers") or []
         n = 0
         tap = EventTap(ctx, stream)
+        # mirror of the CLI's `_execute`: the real ExecutionContext decides the exit code
+        from schemathesis.cli.commands.run.context import ExecutionContext
+
+        exec_ctx = ExecutionContext(seed=cfg.get("seed"))
+        ctx.extra["exec_ctx"] = exec_ctx
         for ev in tap:
+            exec_ctx.on_event(ev)
             for h in handlers:
                 h(ctx, ev)
             n += 1
@@ -269,7 +286,8 @@ def run_engine(ctx: RunContext) -> None:
                         seq = ctx.sched.next_seq()
                         ctx.delivered.append((seq, last))
                         ctx.extra["finish_returned"] = type(last).__name__
-        ctx.exit_code = 0
+                        exec_ctx.on_event(last)
+        ctx.exit_code = exec_ctx.exit_code
     except KeyboardInterrupt as exc:
         ctx.loop_exception = exc
         ctx.loop_traceback = traceback.format_exc()
@@ -280,7 +298,9 @@ def run_engine(ctx: RunContext) -> None:
 
 def run_cli(ctx: RunContext) -> None:
     """The real CLI `run` command, in-process, argv as the `st` executable would have it."""
-    import schemathesis.cli.commands.run.executor as ex
+    import importlib
+
+    ex = importlib.import_module("schemathesis.cli.commands.run.executor")
     from schemathesis.cli import schemathesis as cli_group
 
     cfg = ctx.config
